@@ -1,5 +1,5 @@
 From Coq Require Import Extraction ExtrOcamlBasic.
-From PV Require Import Base.Bytes Base.Outcome Base.DrvBase Base.Varint Model.Merkle Model.Block Model.MerkleBlock Model.BlockObj
+From PV Require Import Base.Bytes Base.Outcome Base.DrvBase Base.Varint Model.Merkle Model.Block Model.MerkleBlock Model.BlockObj Model.BlockCall
   Spec.MerkleSpec Spec.PartialMerkle.
-Extraction "../ml/c14.ml" drv_base merkle merkle_pair merkle_root parse_header stream_header block_hash block_id set_nonce obj_run spec_run
+Extraction "../ml/c14.ml" drv_base merkle merkle_pair merkle_root parse_header stream_header block_hash block_id set_nonce obj_run spec_run block_parse_call name_include_transactions name_include_offsets name_check_merkle_hash
   block_parse block_stream level_widths post_unpack parse_merkleblock partial_merkle_tree matched trav_collision.
